@@ -9,4 +9,7 @@ EXPLANATION = (
     "frame cannot produce a normal return.")
 ASSUMED = ["A-BYTESIO stream model", "the framing equals the reference framing by definition of VARINT (C16) - checked against google.protobuf only by the bounded stand-in"]
 from pyvc.check import standin_bounded
-BOUNDED = [standin_bounded("C10")]
+from pyvc.check import external_bounded
+BOUNDED = [standin_bounded("C10"),
+           external_bounded("deep-schema:C10", "standin.deep", ["C10", "--n", "150"], ["C10", "--n", "800"],
+                            "field numbers whose tags take 2..5 bytes (32 .. 2**29-1) in every presence discipline: encoding vs reference, decode, len, delimited round trip, read as unknown fields")]
